@@ -76,14 +76,14 @@ func LoadProgram(harnessDir string, patterns []string) (*Program, []*ssa.Package
 }
 
 type HarnessSpec struct {
-	Pkg     string   `json:"pkg"`  // import path suffix below the module, e.g. services/attester/standard
-	Func    string   `json:"func"` // entry point
-	Tier    string   `json:"tier"` // "quick" (both tiers) or "thorough"
-	Opts    ExecOpts `json:"opts"`
-	MaxPaths int     `json:"max_paths"`
-	Note    string   `json:"note"`
-	TimeoutMs int    `json:"solver_timeout_ms"`
-	NoNative bool    `json:"no_native"` // virtual-time harness: cannot be replayed against the real clock
+	Pkg       string   `json:"pkg"`  // import path suffix below the module, e.g. services/attester/standard
+	Func      string   `json:"func"` // entry point
+	Tier      string   `json:"tier"` // "quick" (both tiers) or "thorough"
+	Opts      ExecOpts `json:"opts"`
+	MaxPaths  int      `json:"max_paths"`
+	Note      string   `json:"note"`
+	TimeoutMs int      `json:"solver_timeout_ms"`
+	NoNative  bool     `json:"no_native"` // virtual-time harness: cannot be replayed against the real clock
 }
 
 type PathStats struct {
@@ -337,6 +337,11 @@ func runPath(P *Program, pkg *ssa.Package, fn *ssa.Function, spec HarnessSpec, w
 			}()
 		}
 		res.forks = e.forks
+		defer func() {
+			if res.viol != nil {
+				res.viol.Threads = len(e.threads) - 1
+			}
+		}()
 		res.steps = e.steps
 		res.asserts = e.asserts
 		res.assertsTotal = e.assertsTotal
@@ -439,8 +444,9 @@ func firstN(s []string, n int) []string {
 
 // redirectTargets maps harness stub function names to the real functions they replace.
 var redirectTargets = map[string]string{
-	"VerifStub_util_FetchBuilderClient": "github.com/attestantio/vouch/util.FetchBuilderClient",
-	"VerifStub_json_Unmarshal":          "encoding/json.Unmarshal",
+	"VerifStub_util_FetchBuilderClient":  "github.com/attestantio/vouch/util.FetchBuilderClient",
+	"VerifStub_json_Unmarshal":           "encoding/json.Unmarshal",
+	"VerifStub_json_Marshal":             "encoding/json.Marshal",
 	"VerifStub_blockrelay_UnmarshalJSON": "github.com/attestantio/vouch/services/blockrelay.UnmarshalJSON",
 }
 
